@@ -97,9 +97,11 @@ var corpus = []variant{
 	{"C12-root-rename-by-spelling", "C12", "C12.root-rename-refused", []edit{{"pkg/fs/filesystem.go", "func (f *STFS) Rename(", " || pathext.IsRoot(oldname, false) {", " {"}}},
 	{"C08-buffer-adopted-before-load", "C08", "C08.write-buffer-adopted-after-load", []edit{{"pkg/fs/file.go", "func (f *File) enterWriteMode()", "		// Read existing file into buffer\n", "		f.writeBuf = writeBuf\n\n		// Read existing file into buffer\n"}}},
 	{"C03-empty-file-demands-signature", "C03", "C03.empty-content-skips-verify", []edit{{"pkg/recovery/fetch.go", "", "		if hdr.FileInfo().Mode().IsRegular() && hdr.Size == 0 {\n			return dstFile.Close()\n		}\n\n", ""}}},
-	{"C05-update-without-lookup", "C05", "C05.update-entry-lookup", []edit{{"pkg/operations/update.go", "", "		if _, err := o.metadata.Metadata.GetHeader(context.Background(), file.Path); err != nil {\n			return []*tar.Header{}, err\n		}\n\n", ""}}},
+	{"C05-update-without-lookup", "C05", "C05.update-entry-lookup", []edit{{"pkg/operations/update.go", "", "		existing, err := o.metadata.Metadata.GetHeader(context.Background(), file.Path)\n		if err != nil {\n			return []*tar.Header{}, err\n		}\n", "		existing := &config.Header{Typeflag: int64(tar.TypeReg)}\n		if file.Info.IsDir() {\n			existing.Typeflag = int64(tar.TypeDir)\n		}\n"}}},
 	{"C14-negative-count-on-error", "C14", "C14.error-counts-are-zero", []edit{{"pkg/fs/file.go", "func (f *File) Read(p []byte)", "	if !f.flags.Read {\n		return 0, os.ErrPermission\n	}\n", "	if !f.flags.Read {\n		return -1, os.ErrPermission\n	}\n"}}},
 	{"C16-any-reader-error-starts-over", "C16", "C16.reader-error-not-destructive", []edit{{"pkg/fs/filesystem.go", "func (f *STFS) Initialize(", "			if !errors.Is(err, os.ErrNotExist) {\n				return \"\", err\n			}\n\n", "			_ = errors.Is\n\n"}}},
+	{"C14-write-mode-rewinds", "C14", "C14.write-mode-keeps-read-cursor", []edit{{"pkg/fs/file.go", "func (f *File) enterWriteMode()", "		position = int64(f.readOpReader.BytesRead)\n", "		position = 0\n"}}},
+	{"C13-update-kind-unchecked", "C13", "C13.update-kind-checked", []edit{{"pkg/operations/update.go", "", "		if (existing.Typeflag == tar.TypeDir) != file.Info.IsDir() {\n			if file.Info.IsDir() {\n				return []*tar.Header{}, config.ErrIsFile\n			}\n\n			return []*tar.Header{}, config.ErrIsDirectory\n		}\n", "		_ = existing\n"}}},
 	{"C02-rename-onto-itself", "C02", "C02.rename-onto-itself-kept", []edit{{"pkg/fs/filesystem.go", "func (f *STFS) Rename(", "		if target.Name == source.Name && target.Linkname == source.Linkname {\n			return nil\n		}\n\n", ""}}},
 	{"C12-like-filter-removed", "C12", "C12.like-safety", []edit{{"pkg/persisters/metadata.go", "func (p *MetadataPersister) GetHeaderChildren(", "		if !strings.HasPrefix(hdr.Name, childPrefix) {\n			continue\n		}\n\n", ""}}},
 	{"C12-ancestry-guard-removed", "C12", "C12.ancestry-guard", []edit{{"pkg/fs/filesystem.go", "", "	if strings.HasPrefix(\n\t\tstrings.TrimPrefix(newname, string(filepath.Separator)),\n\t\tstrings.TrimPrefix(strings.TrimSuffix(oldname, string(filepath.Separator)), string(filepath.Separator))+string(filepath.Separator),\n\t) {\n\t\treturn os.ErrInvalid\n\t}\n", "	_ = strings.TrimSuffix\n"}}},
